@@ -176,6 +176,26 @@ def _dep_hash(deps, command, toolhash):
     return h.hexdigest()
 
 
+def _metas_of(fdir, key):
+    """meta files of exactly this TU key (<key>.<16 hex>.meta); a plain glob
+    on key + '.*' would also match keys that extend it (parser__parser vs
+    parser__parser.tab)"""
+    import glob
+    import re
+    rx = re.compile(re.escape(key) + r"\.[0-9a-f]{16}\.meta$")
+    return [p for p in glob.glob(os.path.join(fdir, key + ".*.meta"))
+            if rx.search(os.path.basename(p))
+            and os.path.basename(p).startswith(key + ".")
+            and len(os.path.basename(p)) == len(key) + 1 + 16 + 5]
+
+
+def _mtime(p):
+    try:
+        return os.path.getmtime(p)
+    except OSError:
+        return 0.0
+
+
 def _extract_one(cfg, dbdir, entry, toolhash, force):
     """content-addressed: <key>.<hash>.marshal, several versions are kept so
     that reverting an edit costs nothing"""
@@ -183,7 +203,7 @@ def _extract_one(cfg, dbdir, entry, toolhash, force):
     fdir = os.path.join(WORK, "facts", cfg)
     key = tu_key(entry["file"])
     if not force:
-        for meta in glob.glob(os.path.join(fdir, key + ".*.meta")):
+        for meta in _metas_of(fdir, key):
             try:
                 m = json.load(open(meta))
                 out = meta[:-5] + ".marshal"
@@ -219,8 +239,7 @@ def _extract_one(cfg, dbdir, entry, toolhash, force):
     m = {"deps": deps, "hash": h, "functions": len(d["functions"])}
     json.dump(m, open(out[:-8] + ".meta", "w"))
     # keep at most 4 versions per TU
-    metas = sorted(glob.glob(os.path.join(fdir, key + ".*.meta")),
-                   key=os.path.getmtime)
+    metas = sorted(_metas_of(fdir, key), key=_mtime)
     for old in metas[:-4]:
         for p in (old, old[:-5] + ".marshal"):
             try:
